@@ -148,6 +148,9 @@ func discharge(f *FnVC, o dischargeOpts, stats *runStats) {
 	var wg sync.WaitGroup
 	for _, ob := range f.obls {
 		ob := ob
+		if ob.Status != "" {
+			continue // decided at generation time (contract does not apply)
+		}
 		wg.Add(1)
 		sem <- struct{}{}
 		go func() {
